@@ -241,6 +241,9 @@ def contains(interp, container, item, node):
         return z3.Select(c.arr, key_z(it))
     if isinstance(c, VDict):
         return dict_has(interp, c, item)
+    if isinstance(c, VObj) and "__dict__" in c.fields and not (
+            isinstance(c.cls, ClassInfo) and isinstance(c.cls.find_method("__contains__")[1], list)):
+        return dict_has(interp, c.fields["__dict__"], item)
     if isinstance(c, VObj):
         if isinstance(c.cls, ClassInfo):
             owner, found = c.cls.find_method("__contains__")
@@ -444,6 +447,11 @@ def _dunder(interp, obj, name, args, node):
             from .symex import _model_method
             return _model_method(key)(interp, [obj] + args, {}, node)
     raise Unsupported(f"{name} on {obj!r}")
+
+
+def mut(interp, d, node):
+    mutating(interp, d, "mutation", node)
+    return d
 
 
 def mutating(interp, obj, what, node=None):
@@ -858,6 +866,18 @@ def missing_attr(interp, obj, name, node):
 def foreign_method(interp, obj, owner, name, node):
     """method inherited from a builtin / stdlib base class"""
     key = f"foreign:{owner}.{name}"
+    if owner == "dict" and isinstance(obj, VObj) and "__dict__" in obj.fields:
+        d = obj.fields["__dict__"]
+        if name == "__setitem__":
+            return B("dict.__setitem__", lambda it, a, k, n: dict_set(it, mut(it, a[0].fields["__dict__"], n), a[1], a[2], n) or NONE, obj)
+        if name == "__delitem__":
+            return B("dict.__delitem__", lambda it, a, k, n: dict_del(it, mut(it, a[0].fields["__dict__"], n), a[1], n) or NONE, obj)
+        if name == "__getitem__":
+            return B("dict.__getitem__", lambda it, a, k, n: dict_get(it, a[0].fields["__dict__"], a[1], n), obj)
+        if name == "__contains__":
+            return B("dict.__contains__", lambda it, a, k, n: VBool(dict_has(it, a[0].fields["__dict__"], a[1])), obj)
+        if name in DICT_METHODS:
+            return B("dict." + name, lambda it, a, k, n: DICT_METHODS[name](it, [a[0].fields["__dict__"]] + a[1:], k, n), obj)
     if owner == "list" and isinstance(obj, VObj):
         # list subclass: the list part of the object lives in the field __list__
         if name == "__init__":
